@@ -557,6 +557,16 @@ class Evaluator:
             return tuple(self.num(env, e) for e in sl.elts)
         if isinstance(sl, ast.Slice):
             raise Unsupported("slice", sl)
+        if isinstance(sl, (ast.Name, ast.Attribute)) and not (
+                isinstance(sl, ast.Name) and sl.id in env.vars) and \
+                self.const_of is not None:
+            # an index tuple held in a module constant: a[_LAST] with
+            # _LAST = (-1, -1)
+            c = self.const_of(sl)
+            if isinstance(c, tuple) and c and all(
+                    isinstance(x, int) and not isinstance(x, bool)
+                    for x in c):
+                return tuple(Poly.const(x) for x in c)
         return (self.num(env, sl),)
 
     def load(self, env: Env, n: ast.Subscript) -> Any:
